@@ -797,6 +797,10 @@ class Plane(Generic[LTComponentT]):
 
     def add(self, obj: LTComponentT) -> None:
         """Place an object."""
+        if obj in self._objs:
+            # already placed: a set-like container holds it once (a second
+            # entry in the grid would survive remove())
+            return
         for k in self._getrange((obj.x0, obj.y0, obj.x1, obj.y1)):
             if k not in self._grid:
                 r: List[LTComponentT] = []
